@@ -7,6 +7,9 @@ TRUSTED_BASE = [
     "rustc/cargo building /repo with --cfg alpha_g_verif; the Lean compiler for the model driver",
 ]
 
+RUN_HISTORY = ["wire_gain", "wire_baseline", "wire_delay", "pad_baseline", "pad_gain", "pad_delay", "wire_preamp",
+               "wire_channel", "pwb_layout"]
+
 PROPS = {
     "C06": dict(
         lean_modules=["AlphaG.Props.C06"],
@@ -373,11 +376,12 @@ PROPS = {
         assumptions=["&[u8] lengths are <= isize::MAX"],
     ),
     "C08": dict(
-        lean_modules=["AlphaG.Props.C08", "AlphaG.Props.C08Names", "AlphaG.Props.C08Maps"],
+        lean_modules=["AlphaG.Props.C08", "AlphaG.Props.C08Names", "AlphaG.Props.C08Maps", "AlphaG.Props.RunHistory"],
         required_theorems=["AlphaG.C08." + t for t in [
             "name_accept_iff", "chronobox_accept_iff", "seq2_accept_iff", "name_injective", "name_denotes_one",
             "board_tables_distinct", "bankName_total", "wire_bijection", "pad_bijection", "sim_eq_5000",
-            "before_first_map_errors", "no_gap", "no_shadowed_arm", "wire_in_column", "padColumnToWires_fibre"]],
+            "before_first_map_errors", "no_gap", "no_shadowed_arm", "wire_in_column", "padColumnToWires_fibre"]]
+            + ["AlphaG.RunHistory." + t + sfx for t in RUN_HISTORY for sfx in ("_history", "_simulation")],
         harness=[("c08", ["dev", "release"])],
         level_text="Lean theorems over tables and `match run_number` arms regenerated from the source text on every run: for "
                    "every String (any length, any Unicode) the bank-name parsers accept exactly the 458 documented names "
@@ -429,13 +433,20 @@ PROPS = {
         assumptions=["IndexMap keeps insertion order; max_by_key returns the last maximum", "sort_unstable_by returns a permutation"],
     ),
     "C14": dict(
-        lean_modules=["AlphaG.Props.C14", "AlphaG.Props.C15"],
+        lean_modules=["AlphaG.Props.C14", "AlphaG.Props.C15", "AlphaG.Props.C14b", "AlphaG.Lemmas.TrackInit"],
         required_theorems=["AlphaG.C14." + t for t in [
             "cluster_total", "closest_t_range", "collinear_rejected", "fit_assert_unreachable", "fit_sites_total",
             "fit_sites_panic", "minBy_total", "minmax_some"]]
-            + ["AlphaG.Vertexing.vertex_total", "AlphaG.Vertexing.vertex_panic_sites"],
-        harness=[("c14", ["dev"]), ("c15", ["dev"])],
+            + ["AlphaG.Vertexing.vertex_total", "AlphaG.Vertexing.vertex_panic_sites"]
+            + ["AlphaG.C14b." + t for t in [
+                "guard_iff_circle_defined", "guard_iff_circle_defined_xy", "circle_correct", "three_template_points_members",
+                "template_eq", "template_extremal", "template_first_last_rule", "template_panic_iff", "template_total",
+                "fit_init_panic_sites", "initial_simplex_shape", "initial_simplex_nondegenerate", "perturb_ne",
+                "fit_simplex_shape", "vertex_simplex_shape", "vertexInit_shape", "no_initial_parameters_iff",
+                "fit_init_panic_iff", "minmaxByKey_eq", "minByFold_panic_iff"]],
+        harness=[("c14", ["dev"]), ("c15", ["dev"]), ("c14b", ["dev"])],
         disagreement_is_failing_input=False,
+        disagreement_failing_modules=["c14b"],
         oracle_failing_regex=r"panic|non-finite|not finite|NaN|outside|out of range|range",
         level_text="Lean theorems for the logic of the reconstruction stages: clustering always returns (cluster_total); the "
                    "closest-approach parameter is within [-pi, pi] whenever it is not NaN (closest_t_range); the exact "
@@ -443,12 +454,23 @@ PROPS = {
                    "would divide 0/0 (collinear_rejected, over a field); and a panic-site inventory: which unwrap/assert sites of "
                    "track fitting and vertex finding are unreachable by construction, and that the remaining ones fire exactly "
                    "when a NaN reaches a partial_cmp().unwrap() or a cost-function assert (fit_sites_*, vertex_total, "
-                   "vertex_panic_sites).",
+                   "vertex_panic_sites). Module C14b: the initial-guess stage of the track fit (three_template_points with "
+                   "itertools' pairwise minmax and min_by tie rules, the num_complex circle, centre of mass, phi0/theta/h with "
+                   "the theta == 0 rule, the 7x6 scipy-style simplex) and the vertex-fit simplex (beamline clusters, mean z, "
+                   "4x3) are modelled operation by operation; over an ordered field the collinearity guard is exactly 'both "
+                   "complex divisions defined' (guard_iff_circle_defined), the circle is the circumscribed circle with r > 0 "
+                   "(circle_correct), the template points are first-min/last-max/first-closest, the simplex is non-degenerate "
+                   "in every coordinate, NoInitialParameters is returned iff the selected points are collinear, and the stage "
+                   "panics only on < 3 points or a NaN radius deviation.",
         level_note="Partial, said plainly: that no NaN or infinity arises in f64 inside the Newton iteration, hypot/atan2, the "
                    "complex division for nearly collinear points, or argmin's Nelder-Mead cannot be proved here (no IEEE-754 "
                    "semantics in this toolchain); that half is adversarial sampling on the implementation under catch_unwind "
                    "(10 degenerate families x 400, pitch 0/subnormal/1e-17..1e2, 13 k cases quick, 260 k thorough), labelled "
-                   "as sampling in the evidence.",
+                   "as sampling in the evidence. The C14b model is tied to the code bit for bit through the track/vertex "
+                   "fitting hooks (template points, circle, centre of mass, recorded initial simplex, beamline clusters); the "
+                   "f64 statement of the guard equivalence fails only outside the property's domain (point separations below "
+                   "1e-162 m, DESIGN 13.3 F11, informational); that no NaN/inf arises in-domain in the complex division and "
+                   "in Nelder-Mead remains sampling (initial guess and its cost finite in every sampled case).",
         technique="Lean 4 theorems on the combinatorial/algebraic logic + panic-site inventory; adversarial sampling of the "
                   "f64 behaviour on the implementation",
         design_ref="DESIGN.md section 6, C14",
@@ -456,11 +478,15 @@ PROPS = {
              "repeated points, equal radii, vertical lines, circles through the origin, dyadic grids, ...), find_vertices on "
              "helices with pitch 0, subnormal, +-1e-17..+-1e2, closest_t sweeps; plus the clustering replay of C15; distinct by "
              "request line",
-        assumptions=["argmin Nelder-Mead and libm are uninterpreted", "IEEE comparison semantics: a comparison with NaN is false, partial_cmp with NaN is None"],
+        assumptions=["argmin Nelder-Mead and libm are uninterpreted", "IEEE comparison semantics: a comparison with NaN is false, partial_cmp with NaN is None",
+                     "libm sin/cos/atan2/hypot are the same functions on both sides (the driver binds C hypot via @[extern], as core does for atan2)",
+                     "uom quantities are the identity on SI base values; f64::sum starts from -0.0",
+                     "sort_unstable_by is modelled by a stable insertion sort (order among equal keys unspecified; generators use identical tracks for ties)"],
     ),
     "C10": dict(
-        lean_modules=["AlphaG.Props.C10"],
-        required_theorems=["AlphaG.C10." + t for t in [
+        lean_modules=["AlphaG.Props.C10", "AlphaG.Props.RunHistory"],
+        required_theorems=["AlphaG.RunHistory." + t + sfx for t in RUN_HISTORY for sfx in ("_history", "_simulation")]
+            + ["AlphaG.C10." + t for t in [
             "assembly_spec", "assembly_accepts_iff", "assembly_ignores", "assembly_rejects_unknown_name",
             "assembly_rejects_malformed_payload", "assembly_rejects_malformed_pwb_packet", "assembly_rejects_bv_channel",
             "assembly_rejects_wire_channel_mismatch", "assembly_rejects_wire_board_mismatch",
@@ -468,7 +494,7 @@ PROPS = {
             "assembly_rejects_duplicate_wire_bank", "assembly_rejects_missing_trg", "assembly_rejects_duplicate_trg",
             "assembly_rejects_duplicate_chunk_id", "assembly_rejects_missing_wire_map_or_calibration",
             "assembly_rejects_missing_pad_map_or_calibration"]],
-        harness=[("c10", ["dev"])],
+        harness=[("c10", ["dev"]), ("c08", ["dev"])],
         level_text="Lean theorems for every bank list and run number: on success each wire slot holds exactly the expected signal "
                    "(the unique C-bank whose decoded (board, channel) maps to that wire, leading delay samples dropped, "
                    "(raw - baseline) * gain; empty otherwise), each pad slot likewise through (board, chip, pad channel), the "
